@@ -3,6 +3,7 @@ package graph
 import (
 	"encoding/json"
 	"math"
+	"slices"
 	"sync"
 
 	"github.com/specterops/dawgs/cardinality"
@@ -90,7 +91,9 @@ func (s *Node) SizeOf() size.Size {
 }
 
 func (s *Node) AddKinds(kinds ...Kind) {
-	for _, kind := range kinds {
+	// The argument may be one of the node's own slices, e.g. AddKinds(node.DeletedKinds...): Remove below shifts
+	// that slice in place while it is being ranged over. Range over a copy.
+	for _, kind := range slices.Clone(kinds) {
 		if kind == nil {
 			continue // prevent panics from nil kinds
 		}
@@ -101,7 +104,8 @@ func (s *Node) AddKinds(kinds ...Kind) {
 }
 
 func (s *Node) DeleteKinds(kinds ...Kind) {
-	for _, kind := range kinds {
+	// DeleteKinds(node.Kinds...) hands in the slice that Remove below shifts in place; range over a copy.
+	for _, kind := range slices.Clone(kinds) {
 		s.Kinds = s.Kinds.Remove(kind)
 		s.AddedKinds = s.AddedKinds.Remove(kind)
 		s.DeletedKinds = s.DeletedKinds.Add(kind)
